@@ -7,6 +7,7 @@ import (
 	//lint:ignore SA1019 we use the old v1 package because
 	//  we need to support older generated messages
 	"github.com/golang/protobuf/proto"
+	"github.com/jhump/protoreflect/dynamic"
 	"google.golang.org/grpc/encoding"
 	grpcproto "google.golang.org/grpc/encoding/proto"
 
@@ -89,7 +90,13 @@ func CloneFunc(fn func(interface{}) (interface{}, error)) Cloner {
 // function is used to copy the input to the newly created value.
 func CopyFunc(fn func(out, in interface{}) error) Cloner {
 	cloneFn := func(in interface{}) (interface{}, error) {
-		clone := reflect.New(reflect.TypeOf(in).Elem()).Interface()
+		var clone interface{}
+		if dm, ok := in.(*dynamic.Message); ok {
+			// a zero dynamic.Message has no descriptor and cannot be used
+			clone = dynamic.NewMessage(dm.GetMessageDescriptor())
+		} else {
+			clone = reflect.New(reflect.TypeOf(in).Elem()).Interface()
+		}
 		if err := fn(clone, in); err != nil {
 			return nil, err
 		}
